@@ -299,8 +299,11 @@ fn execute_inner(sc: &AisleScenario) -> (Vec<Violation>, AisleStats) {
                         out.push(v("parse-invariant", format!("RichError::labels() of {e:?} panicked for {text:?}")));
                     }
                 }
+                // rendering is much more expensive than parsing a short string: always for duplicate
+                // errors (their spans come from two places), one in eight otherwise
+                let render = !matches!(e, AisleConfError::Parse { .. }) || fnv(text.as_bytes()) % 8 == 0;
                 let mut buf = Vec::new();
-                if catch_unwind(AssertUnwindSafe(|| cooklang::error::write_rich_error(&e, "aisle.conf", text, false, &mut buf))).is_err() {
+                if render && catch_unwind(AssertUnwindSafe(|| cooklang::error::write_rich_error(&e, "aisle.conf", text, false, &mut buf))).is_err() {
                     let _ = crate::sim::take_last_panic();
                     out.push(v("parse-invariant", format!("rendering the error {e:?} of {text:?} panicked (a span that does not select text of the input)")));
                 }
@@ -434,6 +437,16 @@ fn execute_inner(sc: &AisleScenario) -> (Vec<Violation>, AisleStats) {
                     let n: usize = r.categories.iter().map(|c| c.ingredients.iter().map(|i| i.names.len()).sum::<usize>()).sum();
                     if rev.len() != n {
                         out.push(v("lookup", format!("reverse() has {} entries for {} names", rev.len(), n)));
+                    }
+                    // documented as: each key is an ingredient and the value is its category
+                    for c in &r.categories {
+                        for i in &c.ingredients {
+                            for name in &i.names {
+                                if rev.get(name).copied() != Some(c.name) {
+                                    out.push(v("lookup", format!("reverse()[{name:?}] is {:?}, its category is {:?}", rev.get(name), c.name)));
+                                }
+                            }
+                        }
                     }
                 }
                 AisleOp::Categorize { names } => check_categorize(r, names, &mut out),
